@@ -292,7 +292,7 @@ func (x *Exec) collectCallMods(cc *ssa.CallCommon, in ssa.Instruction, seen map[
 		if c := x.portContract(cc.Method); c != nil && (c.HasAssigns || c.Pure) && len(c.Assigns) == 0 {
 			return false
 		}
-		if cc.Method.Name() == "Error" {
+		if cc.Method.Name() == "Error" || (cc.Method.Pkg() != nil && cc.Method.Pkg().Path() == "context") {
 			return false
 		}
 		return true
@@ -328,7 +328,7 @@ func (x *Exec) collectCallMods(cc *ssa.CallCommon, in ssa.Instruction, seen map[
 		return false
 	}
 	x.prog.ensureBuilt(cf)
-	if cf.Blocks == nil {
+	if cf.Blocks == nil || !x.prog.inRepo(pkgPathOfKey(cf, x.prog)) {
 		return !x.prog.knownPure(key)
 	}
 	return x.collectMods(cf, nil, seen, acc, 1)
